@@ -784,4 +784,124 @@ def zipLists {α : Type} : List (List α) → List (List α)
 def enumI {α : Type} (I : Iterable α) (n : Nat) (inj : Int → α) : Iterable (List α) :=
   zipI [embI (rangeI 0 n 1) inj, I]
 
+/-! ## `mem` — the membership test of the Get instances of src/Iter.c -/
+
+/-- what a call of `mem` does: answers true / false, or leaves the protocol (`undef`: `Terminal` is compared with the key as
+    if it were an element — for an Int key `eq(Terminal, key)` raises a stray ValueError — and would be handed on as a
+    cursor), or loops (`hang`: a Filter loop; `fuel`: the cap of the interpreter) -/
+inductive MemRes where
+  | yes | no | undef | hang | fuel
+deriving Repr, DecidableEq
+
+def MemRes.show : MemRes → String
+  | .yes => "1" | .no => "0" | .undef => "ub" | .hang => "hang" | .fuel => "fuel"
+
+/-- Slice_Mem: `curr = Slice_Iter_Init(self); while (curr) { if (eq(curr, key)) return true; curr = Slice_Iter_Next(self, curr); }
+    return false;` — the loop test is `curr != NULL`, not `curr isnt Terminal`: no iterator ever hands out NULL, so the loop is
+    left by `return true` only; when the walk reaches Terminal, Terminal is compared with the key (`undef`).
+    `r` is the result of the previous protocol call. -/
+def memLoop {σ α : Type} (eq : α → Bool) (step : σ → σ × Res α) : Nat → σ × Res α → MemRes
+  | 0, _ => .fuel
+  | n + 1, (s, .item a) => if eq a then .yes else memLoop eq step n (step s)
+  | _ + 1, (_, .term) => .undef
+  | _ + 1, (_, .undef) => .undef
+  | _ + 1, (_, .hang) => .hang
+
+/-- Zip_Mem, Filter_Mem, Map_Mem: `foreach (item in self) { if (eq(item, key)) return true; } return false;` — and Slice_Mem
+    with the one-token repair `while (curr isnt Terminal)` -/
+def memForeach {σ α : Type} (eq : α → Bool) (step : σ → σ × Res α) : Nat → σ × Res α → MemRes
+  | 0, _ => .fuel
+  | n + 1, (s, .item a) => if eq a then .yes else memForeach eq step n (step s)
+  | _ + 1, (_, .term) => .no
+  | _ + 1, (_, .undef) => .undef
+  | _ + 1, (_, .hang) => .hang
+
+/-- `mem(slice, key)` as it is in /repo -/
+def Iterable.memWhileCurr {α : Type} (I : Iterable α) (eq : α → Bool) (fuel : Nat) : MemRes := memLoop eq I.next fuel (I.init I.s0)
+/-- `mem(x, key)` through `foreach` -/
+def Iterable.memForeach {α : Type} (I : Iterable α) (eq : α → Bool) (fuel : Nat) : MemRes :=
+  Cello.Iter.memForeach eq I.next fuel (I.init I.s0)
+
+/-- Range_Mem with the line `i = i < 0 ? Range_Len(r)+i : i;` dropped (proposed repair): the key is a VALUE, not an index -/
+def rangeMemFix (start stop step : Int) (key : Int) : Bool :=
+  if step = 0 then false
+  else if step > 0 then decide (key ≥ start ∧ key < stop ∧ Int.tmod (key - start) step = 0)
+  else decide (key ≥ start ∧ key < stop ∧ Int.tmod (key - (stop - 1)) (-step) = 0)
+
+/-! ## Range on `int64_t` -/
+
+def isI64 (x : Int) : Bool := decide (-(2 ^ 63 : Int) ≤ x) && decide (x < (2 ^ 63 : Int))
+
+/-- Range_Len evaluates without signed overflow: `r->stop-1`, `(r->stop-1) - r->start`, `-r->step` stay inside `int64_t`
+    (false only for ranges wider than 2^63 - 1 or with step `INT64_MIN`; same test as `Rng.lenOk` of engine `fail`) -/
+def rangeLenOk (start stop step : Int) : Bool :=
+  if step = 0 then true
+  else if stop ≤ start then true
+  else if step > 0 then isI64 (stop - 1) && isI64 ((stop - 1) - start)
+  else isI64 (stop - 1) && isI64 ((stop - 1) - start) && isI64 (-step)
+
+/-- Range with `int64_t` fields and an `int64_t` cursor: the machine of `rangeI` with the overflow test of every signed
+    operation of Range_Iter_Init / _Next / _Last / _Prev (`i->val += r->step` BEFORE the comparison with `stop`, `r->stop-1`,
+    `r->start + r->step * (n-1)`, `Range_Len`); a signed overflow is undefined behaviour (`undef`; compiled without
+    `-ftrapv` / UBSan the cursor wraps round and is "below stop" again: the walk runs away).  `len` / `get` are the values
+    computed when `rangeLenOk` holds. -/
+def rangeI64 (start stop step : Int) : Iterable Int where
+  σ := Int
+  s0 := 0
+  init := fun v =>
+    if step = 0 then (v, .term)
+    else if step < 0 ∧ !isI64 (stop - 1) then (v, .undef)
+    else
+      let v := if step > 0 then start else stop - 1
+      if step > 0 ∧ v ≥ stop then (v, .term)
+      else if step < 0 ∧ v < start then (v, .term)
+      else (v, .item v)
+  last := fun v =>
+    if !rangeLenOk start stop step then (v, .undef)
+    else
+      let n := rangeLen start stop step
+      if n = 0 then (v, .term)
+      else
+        let w := if step > 0 then start + step * ((n : Int) - 1) else stop - 1 + step * ((n : Int) - 1)
+        if !isI64 (step * ((n : Int) - 1)) ∨ !isI64 w then (v, .undef) else (w, .item w)
+  next := fun v =>
+    if !isI64 (v + step) then (v, .undef)
+    else
+      let v := v + step
+      if step = 0 then (v, .term)
+      else if step > 0 ∧ v ≥ stop then (v, .term)
+      else if step < 0 ∧ v < start then (v, .term)
+      else (v, .item v)
+  prev := fun v =>
+    if !isI64 (v - step) then (v, .undef)
+    else
+      let v := v - step
+      if step = 0 then (v, .term)
+      else if step > 0 ∧ v < start then (v, .term)
+      else if step < 0 ∧ v ≥ stop then (v, .term)
+      else (v, .item v)
+  len := some (rangeLen start stop step)
+  get := some (rangeGet start stop step)
+  getSt := fun v k => (rangeGet start stop step k).getD v
+  getCur := fun v k => (rangeGet start stop step k).getD v
+  inObject := true
+  oneCell := true
+
+/-- the FORWARD walk of a Range stays inside `int64_t`: the three fields do, and so does the value ONE STEP BEYOND THE LAST
+    ELEMENT (`start + step*len` resp. `stop-1 + step*len`: Range_Iter_Next adds the step before it compares) -/
+def RangeFitsFwd (start stop step : Int) : Prop :=
+  isI64 start = true ∧ isI64 stop = true ∧ isI64 step = true ∧
+  (step > 0 → start + step * (rangeLen start stop step : Int) < 2 ^ 63) ∧
+  (step < 0 → isI64 (stop - 1) = true ∧ -(2 ^ 63 : Int) ≤ stop - 1 + step * (rangeLen start stop step : Int))
+
+/-- the BACKWARD walk stays inside `int64_t`: Range_Len does (`rangeLenOk`), and so does the value one step before the
+    first element of the backward walk's end (`start - step` resp. `stop-1 - step`) when there is an element at all -/
+def RangeFitsBwd (start stop step : Int) : Prop :=
+  isI64 start = true ∧ isI64 stop = true ∧ isI64 step = true ∧ rangeLenOk start stop step = true ∧
+  (step > 0 → 0 < rangeLen start stop step → -(2 ^ 63 : Int) ≤ start - step) ∧
+  (step < 0 → 0 < rangeLen start stop step → stop - 1 - step < 2 ^ 63)
+
+instance (a b c : Int) : Decidable (RangeFitsFwd a b c) := by unfold RangeFitsFwd; infer_instance
+instance (a b c : Int) : Decidable (RangeFitsBwd a b c) := by unfold RangeFitsBwd; infer_instance
+
 end Cello.Iter
